@@ -6,6 +6,7 @@
 import Lean.Data.Json
 import Pyab.Model.Evaluator
 import Pyab.Model.Stats
+import Pyab.Model.PyRead
 import Pyab.Generated.LexRules
 import Pyab.Generated.LRTables
 import Pyab.Generated.Config
@@ -123,6 +124,28 @@ def outcomeJ : Except Err Outcome → Json
   | .ok (.random pop cum) => Json.mkObj [("r", Json.mkObj [("pop", Json.arr (pop.map valJ).toArray), ("cum", Json.arr (cum.map numJ).toArray)])]
   | .error e => errJ e
 
+/-! the structured view of the generated body as JSON (operation `pyread`) -/
+
+partial def ptermJ : PTerm → Json
+  | .const v => Json.mkObj [("c", valJ v)]
+  | .name n => Json.mkObj [("n", n)]
+  | .tuple l => Json.mkObj [("t", Json.arr (l.map ptermJ).toArray)]
+
+partial def pexprJ : PExpr → Json
+  | .cmp l op r => Json.mkObj [("cmp", Json.arr #[ptermJ l, op, ptermJ r])]
+  | .bin a op b => Json.mkObj [("bin", Json.arr #[pexprJ a, op, pexprJ b])]
+  | .un op a => Json.mkObj [("un", Json.arr #[op, pexprJ a])]
+
+def lineJ : Line → Json
+  | .ifL e => Json.mkObj [("if", pexprJ e)]
+  | .elifL e => Json.mkObj [("elif", pexprJ e)]
+  | .elseL => Json.str "else"
+  | .ret pop ws => Json.mkObj [("ret", Json.mkObj [("pop", Json.arr (pop.map valJ).toArray),
+      ("w", Json.arr (ws.map numJ).toArray)])]
+  | .raiseU => Json.str "raise"
+
+def ilineJ (x : ILine) : Json := Json.arr #[x.1, lineJ x.2]
+
 def pipeline : Pipeline := Generated.pipeline
 
 def exceptJ {α} (f : α → Json) : Except Err α → Json
@@ -181,6 +204,14 @@ def handle (j : Json) : Except String Json := do
         | some (s', []) => Json.str s'
         | _ => Json.null
       pure (Json.mkObj [("repr", r), ("back", back)])
+  | "pyread" =>
+      -- the body text of the generated function as the model of Python's reader sees it
+      let text ← getStr j "text"
+      match PyRead.readBody text with
+      | some ls => pure (Json.mkObj [("lines", Json.arr (ls.map ilineJ).toArray),
+          -- block structure is not the reader's business: `PyExec.wellIndented` on the lines read
+          ("well", wellIndented ls)])
+      | none => pure (Json.mkObj [("lines", Json.null)])
   | "pystr" =>
       let v ← parseVal (← j.getObjVal? "v")
       pure (exceptJ (fun (s : String) => Json.mkObj [("str", s)]) (PyVal.pyStr v))
